@@ -1508,7 +1508,9 @@ class Expr:
             else:
                 raise NotImplementedError
 
-        if window is None and (partition_by is not None or order_by is not None):
+        # Without an ordering there is no "current data point": the default running window only
+        # applies when order by is given; otherwise the function covers the whole partition.
+        if window is None and order_by is not None:
             window = Windowing(
                 type_="data",
                 start=-1,
